@@ -131,6 +131,8 @@ struct HW {
     state: ConfigState,
     /// every response read, in order
     log: Vec<WorkerResponse>,
+    /// when each of them was read
+    log_at: Vec<Instant>,
 }
 
 fn server_config() -> ServerConfig {
@@ -182,7 +184,7 @@ impl HW {
                 *exit_t.lock().unwrap_or_else(|e| e.into_inner()) = Some(st);
             })
             .map_err(|e| e.to_string())?;
-        let hw = HW { channel: Some(cmd_main), scm_main, scm_worker_fd, thread: Some(thread), exit, next_id: 0, prefix, state: initial.clone(), log: vec![] };
+        let hw = HW { channel: Some(cmd_main), scm_main, scm_worker_fd, thread: Some(thread), exit, next_id: 0, prefix, state: initial.clone(), log: vec![], log_at: vec![] };
         match rx.recv_timeout(Duration::from_secs(10)) {
             Ok(Ok(())) => Ok(hw),
             Ok(Err(e)) => Err(format!("worker start: {e}")),
@@ -202,6 +204,7 @@ impl HW {
         match ch.read_message_blocking_timeout(Some(timeout.max(Duration::from_millis(1)))) {
             Ok(r) => {
                 self.log.push(r.clone());
+                self.log_at.push(Instant::now());
                 Some(r)
             }
             Err(_) => None,
@@ -464,6 +467,10 @@ impl Client {
 
 struct Run {
     r: ImplRun,
+    /// when the harness started to complete each request that holds the stop
+    finish_started: Vec<Instant>,
+    /// when the final answer to the SoftStop was read
+    acked_at: Option<Instant>,
 }
 impl Run {
     fn fail(&mut self, class: &str, detail: String) {
@@ -1019,6 +1026,7 @@ fn run_with_old(sc: &Scenario, run: &mut Run, w1: &mut HW) -> Result<(), String>
         }
         // ---- the acknowledgement
         let _ = observe(w1, Duration::from_secs(2));
+        run.acked_at = w1.log.iter().zip(w1.log_at.iter()).find(|(r, _)| r.id == stop_id && r.status != ResponseStatus::Processing as i32).map(|(_, t)| *t);
         match w1.finals(&stop_id) {
             0 => {
                 let class = stuck_class(w1);
@@ -1129,7 +1137,12 @@ fn run_with_old(sc: &Scenario, run: &mut Run, w1: &mut HW) -> Result<(), String>
         // open finding: DeactivateListener lowers the drain threshold (base_sessions_count is not
         // adjusted when the listener's slab entry goes); its consequences carry one class
         let consequence = |c: &str| c == "softstop-ack-before-drain" || c == "h2-stream-cut-before-graceful-deadline" || c.starts_with("inflight-request-cut:sent") || c.starts_with("inflight-request-cut:midbody") || c == "inflight-request-cut:softstop-buffered-tail";
-        let early = run.r.oracle.iter().any(|(c, _)| consequence(c));
+        // the fingerprint of F1475 is an acknowledgement that came before a request that holds the
+        // stop was completed; any other failure of a scenario with deactivations keeps its own class
+        let early = match run.acked_at {
+            Some(a) => run.finish_started.iter().any(|f| a < *f + Duration::from_millis(30)),
+            None => false,
+        } && run.r.oracle.iter().any(|(c, _)| consequence(c));
         if early {
             let mut details = vec![];
             run.r.oracle.retain(|(c, d)| {
@@ -1161,6 +1174,14 @@ fn stuck_class(w: &HW) -> String {
 /// complete the request of a client that was in flight, check it byte for byte
 fn finish_client(c: &mut Client, run: &mut Run) {
     let i = c.idx;
+    if c.holds_stop() {
+        // (a parked stream is completed by its backend later than this: count from the answer time)
+        let at = match (c.park, c.stop_at) {
+            (Some((_, dms)), Some(t)) => t + Duration::from_millis(dms),
+            _ => Instant::now(),
+        };
+        run.finish_started.push(at);
+    }
     let body = body_of(i);
     let res = (|| -> Result<(), String> {
         if let (Some((knob, dms)), Some(h2)) = (c.park, c.h2.as_mut()) {
@@ -1438,7 +1459,7 @@ impl Area for Handover {
         ]
     }
     fn run_impl(&self, ops: &[String]) -> ImplRun {
-        let mut run = Run { r: ImplRun::default() };
+        let mut run = Run { r: ImplRun::default(), finish_started: vec![], acked_at: None };
         for op in ops {
             if op == "new" {
                 run.r.out.push("new".into());
